@@ -148,6 +148,12 @@ def shard(shard_i, nshards, payload):
                     "PROGRAM p VAR x : INT; END_VAR x := y; END_PROGRAM", "PROGRAM p VAR x : INT END_VAR END_PROGRAM",
                     "PROGRAM p VAR x : INT; END_VAR x := ?; END_PROGRAM", "", "\n\n", "(* only a comment *)",
                     hostile.soup_case(rng)[:2000], hostile.literal_case(rng), hostile.random_bytes_text(rng)[:500]]
+            # two documents declaring the same name: the diagnostic's labels live in different documents, one of them
+            # at an offset far beyond the end of the other (and after multi-byte characters)
+            filler = "(* " + "é€日 " * rng.randint(20, 200) + "*)\n"
+            docs.append(filler + "FUNCTION_BLOCK Dup\nVAR x : INT; END_VAR\nx := 1;\nEND_FUNCTION_BLOCK\n")
+            docs.append("FUNCTION_BLOCK Dup VAR y : INT; END_VAR y := 2; END_FUNCTION_BLOCK")
+            docs.append("TYPE Dup : (a, b); END_TYPE")
             if payload.get("clean_docs"):
                 docs = docs[:7]
             ops = gen_ops(rng, docs, rng.randint(1, 60))
